@@ -72,4 +72,17 @@ theorem gen_stdpc_n_eq (n : List ℕ) : Generated.stdpc_n (castCountsR n) = Real
   ring_nf at e2 e3 ⊢
   rw [e2, e3, e1]
 
+/-- `stdpc(array)` of the source (`np.unique(return_counts=True)`, then `stdpc_n`) is the square root of the variance estimate
+of the counts of the sample -/
+theorem gen_stdpc_eq {β : Type} [DecidableEq β] (xs : List β) :
+    Generated.stdpc xs = Real.sqrt ((varpcN (counts xs) : ℚ) : ℝ) := by
+  have e1 := castCountsR_sum (counts xs)
+  have e2 := castCountsR_fall2 (counts xs)
+  have e3 := castCountsR_fall3 (counts xs)
+  rw [varpcN_cast]
+  simp only [Generated.stdpc, castCountsR, ← Real.sqrt_eq_rpow] at e1 e2 e3 ⊢
+  congr 1
+  ring_nf at e2 e3 ⊢
+  rw [e2, e3, e1]
+
 end Prs
